@@ -16,11 +16,11 @@ from habutax import solver as hb_solver      # noqa: E402
 ID = 'C11'
 LEVEL = 'exploration'
 PLAN = {
-    'quick': [('echo_file', 9000), ('echo_prompt', 5000), ('flip', 6000), ('shipped', 160)],
-    'thorough': [('echo_file', 400000), ('echo_prompt', 200000), ('flip', 250000), ('shipped', 8000)],
+    'quick': [('echo_file', 9000), ('echo_prompt', 5000), ('flip', 6000), ('store_history', 5000), ('shipped', 160)],
+    'thorough': [('echo_file', 400000), ('echo_prompt', 200000), ('flip', 250000), ('store_history', 200000), ('shipped', 8000)],
 }
 DEADLINE = {'quick': 220, 'thorough': 3300}
-PROBES = ['invalid-text-in-file-rejected', 'invalid-answer-reasked', 'boundary-text-accepted', 'nonfinite-text-offered',
+PROBES = ['store-history-delete-then-solve', 'store-history-respecified-type', 'invalid-text-with-interactive-user', 'invalid-text-in-file-rejected', 'invalid-answer-reasked', 'boundary-text-accepted', 'nonfinite-text-offered',
           'absent-key-reported-missing', 'flipped-character-still-valid', 'flipped-character-invalid']
 ASSUMPTIONS = [
     'validity is judged by the input\'s own valid() (a legitimately changed grammar is not an alarm); finiteness of numeric values '
@@ -246,10 +246,14 @@ def eval_echo(case, engine, acc=None):
         m = mon.Monitor(supplied=['fa.x'] if eff is not None else [])
         rec = seams.Recorder(budget=200, sched_seed=case['sched'][0], period=case['sched'][1], monitor=m)
         outcome, exc, unmet = None, None, None
+        user = case.get('user')           # None: no prompt function; 'refuse': Ctrl-C; else: the text the user would type
+        pf = None
+        if user is not None:
+            pf = seams.solver_prompt(rec, lambda name, inp, k: None if user == 'refuse' else user)
         with seams.installed(rec), core.cpu_alarm(10):
             try:
                 store = hb_inputs.InputStore(path)
-                s = hb_solver.Solver(store, classes, prompt=None)
+                s = hb_solver.Solver(store, classes, prompt=pf)
                 ok = s.solve(['fa'])
                 outcome = 'solved' if ok else 'failed'
                 unmet = s.unmet_input_dependencies()
@@ -257,7 +261,15 @@ def eval_echo(case, engine, acc=None):
                 outcome, exc = 'abort', e
         seen = holder.get('seen', [])
         v = own_valid(eff) if eff is not None else None
-        if eff is None:
+        if eff is not None and m.prompted:
+            fs.append(F(ID, 'C11.absent', 'supplied-asked-for', f'{spec["type"]}: the file supplies {eff!r} but the user was asked for it'))
+        if user is not None and eff is not None and v is False and acc is not None:
+            acc.count('probe:invalid-text-with-interactive-user')
+        if eff is None and user not in (None, 'refuse'):
+            # absent key, interactive user who answers: the answer is what the line must receive
+            if own_valid(user) and (not seen or core.norm(seen[-1]) != core.norm(probe.value(user))):
+                fs.append(F(ID, 'C11.accept', 'answer-not-delivered', f'{spec["type"]}: absent key, user answered {user!r}, line received {seen!r}'))
+        elif eff is None:
             if seen:
                 fs.append(F(ID, 'C11.absent', 'absent-defaulted', f'{spec["type"]}: key absent from the file but the line received {seen[0]!r}'))
             elif outcome != 'failed' or 'fa.x' not in (unmet or {}):
@@ -465,6 +477,8 @@ def eval_shipped(case, acc=None):
 
 
 def evaluate(case, engine, acc=None):
+    if engine == 'store_history':
+        return eval_store_history(case, acc)
     if engine == 'flip':
         return eval_flip(case, acc)
     if engine == 'shipped':
@@ -474,6 +488,8 @@ def evaluate(case, engine, acc=None):
 
 def make_case(engine, seed):
     rng = core.Rng(core.h64('c11', seed))
+    if engine == 'store_history':
+        return make_store_history(seed)
     if engine == 'shipped':
         from . import shipped_props
         case = shipped_props.make_case(seed, 'C11')
@@ -520,7 +536,10 @@ def make_case(engine, seed):
         else:
             cls, ts = rng.pick(classes)
             texts = [[cls, rng.pick(ts)]]
-        return {'spec': spec, 'texts': texts, 'channel': 'file', 'sched': [None, 0]}
+        user = None
+        if rng.chance(0.4):
+            user = 'refuse' if rng.chance(0.5) else rng.pick(classes[0][1])
+        return {'spec': spec, 'texts': texts, 'channel': 'file', 'sched': [None, 0], 'user': user}
     n = rng.pick([1, 2, 2, 3, 4])
     texts = []
     for _ in range(n):
@@ -559,3 +578,139 @@ MANIFEST = {
              'plus an independent finiteness test, for the synthetic input types and every distinct input spec of the shipped forms.'),
     'note': 'Texts are single-line and must survive INI syntax; non-ASCII texts are used only when the locale encoding is UTF-8.',
 }
+
+
+# ----------------------------------------------------------------------------------
+# histories on ONE InputStore shared by several solves (values set, deleted, re-read under another spec)
+# ----------------------------------------------------------------------------------
+def eval_store_history(case, acc=None):
+    """case: {'initial': text|None, 'ops': [['solve', spec, user] | ['del'] | ['set', text]]}"""
+    fs = []
+    path = os.path.join(simrun.scratch_dir(), 'c11_hist.ini')
+    crash.write_text(path, '[fa]\nother = 1\n' if case['initial'] is None else f'[fa]\nother = 1\nx = {case["initial"]}\n')
+    try:
+        cfgp = configparser.ConfigParser()
+        cfgp.read(path)
+        cur = cfgp.get('fa', 'x', raw=True) if cfgp.has_option('fa', 'x') else None
+    except configparser.Error:
+        return []
+    store = hb_inputs.InputStore(path)
+    solved_once = False
+    n_del = n_respec = 0
+    last_type = None
+    for k, op in enumerate(case['ops']):
+        if op[0] == 'del':
+            if cur is not None:
+                try:
+                    del store['fa.x']
+                except Exception as e:
+                    fs.append(F(ID, 'C11.hist', 'delete-raises', f'op {k}: deleting a supplied input raised {type(e).__name__}'))
+                    break
+                cur = None
+                n_del += 1
+            continue
+        if op[0] == 'set':
+            if solved_once:
+                try:
+                    store['fa.x'] = op[1]
+                    cur = op[1]
+                except Exception:
+                    break
+            continue
+        spec, user = op[1], op[2]
+        if last_type is not None and last_type != spec['type']:
+            n_respec += 1
+        last_type = spec['type']
+        classes, holder = echo_classes(spec)
+        probe, _ = make_input(spec)
+        probe.__form_init__(type('F', (), {'name': lambda self: 'fa'})())
+        m = mon.Monitor(supplied=['fa.x'] if cur is not None else [])
+        rec = seams.Recorder(budget=200, monitor=m)
+        pf = None
+        if user is not None:
+            pf = seams.solver_prompt(rec, lambda name, inp, kk, user=user: None if user == 'refuse' else user)
+        outcome, exc, unmet = None, None, None
+        with seams.installed(rec), core.cpu_alarm(10):
+            try:
+                s = hb_solver.Solver(store, classes, prompt=pf)
+                ok = s.solve(['fa'])
+                outcome = 'solved' if ok else 'failed'
+                unmet = s.unmet_input_dependencies()
+            except Exception as e:
+                outcome, exc = 'abort', e
+        solved_once = True
+        seen = holder.get('seen', [])
+        tag = f'op {k} (solve as {spec["type"]}, stored text {cur!r}, user {user!r})'
+        try:
+            v = None if cur is None else bool(probe.valid(cur))
+        except Exception:
+            v = None
+        if cur is None:
+            if user not in (None, 'refuse') and probe.valid(user):
+                if not seen or core.norm(seen[-1]) != core.norm(probe.value(user)):
+                    fs.append(F(ID, 'C11.hist', 'answer-not-delivered', f'{tag}: line received {seen!r}'))
+                cur = user
+            elif seen:
+                fs.append(F(ID, 'C11.hist', 'absent-yielded-value', f'{tag}: the input is not supplied but the line received {seen[-1]!r}'))
+            elif outcome != 'failed' or 'fa.x' not in (unmet or {}):
+                if not (user not in (None, 'refuse')):
+                    fs.append(F(ID, 'C11.hist', 'absent-not-reported', f'{tag}: outcome {outcome} {exc!r}, unmet {unmet}'))
+        elif v is False:
+            if seen:
+                fs.append(F(ID, 'C11.hist', 'invalid-became-value', f'{tag}: text is rejected by the input\'s own valid() but the line received {seen[-1]!r}'))
+            elif outcome != 'abort':
+                fs.append(F(ID, 'C11.hist', 'invalid-not-reported', f'{tag}: outcome {outcome}, unmet {unmet}'))
+            if m.prompted:
+                fs.append(F(ID, 'C11.hist', 'supplied-asked-for', f'{tag}: the user was asked for a supplied input'))
+                if user not in (None, 'refuse'):
+                    cur = user
+        elif v is True:
+            if m.prompted:
+                fs.append(F(ID, 'C11.hist', 'supplied-asked-for', f'{tag}: the user was asked for a supplied input'))
+            if not seen:
+                if not (outcome == 'abort' and isinstance(exc, configparser.Error)):
+                    fs.append(F(ID, 'C11.hist', 'valid-not-delivered', f'{tag}: outcome {outcome} {exc!r}'))
+            else:
+                bad = check_value(spec, holder['input'], cur, seen[-1])
+                if bad:
+                    fs.append(F(ID, 'C11.hist', 'bad-type', f'{tag}: {bad}'))
+                elif core.norm(probe.value(cur)) != core.norm(seen[-1]):
+                    fs.append(F(ID, 'C11.hist', 'value-differs', f'{tag}: line received {seen[-1]!r}, own value() gives {probe.value(cur)!r}'))
+        if acc is not None:
+            acc.steps += rec.attempts
+        if fs:
+            break
+    if acc is not None:
+        acc.count('outcome:store-history')
+        if n_del:
+            acc.count('probe:store-history-delete-then-solve')
+        if n_respec:
+            acc.count('probe:store-history-respecified-type')
+        acc.add('nontrivial', core.digest_int(['hist', [o[0] if o[0] != 'solve' else o[1]['type'] for o in case['ops']]]))
+        acc.sample({'engine': 'store_history', 'initial': case['initial'],
+                    'ops': [o if o[0] != 'solve' else ['solve', o[1]['type'], o[2]] for o in case['ops']]})
+    return fs
+
+
+def make_store_history(seed):
+    rng = core.Rng(core.h64('c11h', seed))
+
+    def some_text(spec):
+        cls, ts = rng.pick(texts_for(spec['type'], spec_extra(spec)))
+        return rng.pick(ts)
+    specs = [rng.pick(SYNTH_SPECS) for _ in range(rng.pick([1, 2, 2, 3]))]
+    ops = []
+    init = None if rng.chance(0.3) else some_text(specs[0])
+    for _ in range(rng.pick([2, 3, 4, 6])):
+        c = rng.random()
+        if c < 0.55 or not ops:
+            sp = rng.pick(specs)
+            user = rng.pick([None, None, 'refuse', some_text(sp)])
+            ops.append(['solve', sp, user])
+        elif c < 0.8:
+            ops.append(['del'])
+        else:
+            ops.append(['set', some_text(rng.pick(specs))])
+    if ops[-1][0] != 'solve':
+        ops.append(['solve', rng.pick(specs), None])
+    return {'initial': init, 'ops': ops}
